@@ -33,6 +33,19 @@ def collect(facts, V):
     return D, sites
 
 
+def sites_for(facts, rep, V, rule, fn_pred):
+    """panic-site obligations restricted to functions whose root satisfies fn_pred (for re-use by other properties)"""
+    D, sites = collect(facts, V)
+    n = 0
+    for b, s, r in sites:
+        root = facts.body(b.root) if b.kind == "Closure" and b.root else b
+        if root is None or not fn_pred(root):
+            continue
+        n += 1
+        rep.ob(rule, b.id, s.desc, r is not None, ("%s: %s" % r) if r else (s.reason or "undischarged panic site: %s" % s.what), s.line)
+    return n
+
+
 def run(facts, rep, tier, ctx):
     V = ctx["V"]
     D, sites = collect(facts, V)
